@@ -45,3 +45,55 @@ Section Graph.
   Fixpoint work_upto (k : nat) (pending : list file) : nat :=
     match k with 0 => 0 | S k' => length pending + work_upto k' (round pending) end.
 End Graph.
+
+(** * The loop with the ancestry check (round 4: repair of the exponential blow-up on cycles)
+
+    Python (instancing.py after the repair):
+<<
+      for _ in range(recur_limit):
+          instances = list(vmf.by_class['func_instance'])           # a set: iteration order is arbitrary
+          if not instances: return
+          for inst_ent in instances:
+              inst = Instance.from_entity(inst_ent)                 # reads .parents from the hidden attribute
+              if inst.filename in inst.parents: raise RecursionError('Loop in instances!')
+              inst_ent.remove(); ... collapse_one(vmf, inst, file)  # nested instance: parents + (filename,)
+      raise RecursionError('Loop in instances!')
+>>
+    A pending instance is now a pair (file, files of the enclosing instances, innermost first).  [children] is a
+    fixed graph, i.e. every nested func_instance names its file without [$variables] (a "static" link; for such a
+    link collapse_one extends the parents).  A file name containing [$] is substituted with the fixup values of the
+    enclosing instance and can differ on every level: collapse_one then resets the parents to [()], and such graphs
+    are outside this model (the harness covers them by search against an independent reference of the old loop).
+
+    [perm] is the order in which the set [by_class] hands out the pending instances of a round (any permutation;
+    the identity in the correspondence, where the harness pins the iteration order to insertion order). *)
+Definition item := (file * list file)%type.
+
+Section Graph2.
+  Variable children : file -> list file.
+  Variable perm : list item -> list item.
+
+  Definition expand (x : item) : list item := map (fun c => (c, fst x :: snd x)) (children (fst x)).
+  Definition is_loop (x : item) : bool := existsb (Nat.eqb (fst x)) (snd x).
+
+  (** Number of collapse_one calls of a round before the first instance that is found among its own parents. *)
+  Fixpoint before (p : list item) : nat :=
+    match p with [] => 0 | x :: r => if is_loop x then 0 else S (before r) end.
+
+  (** (outcome, number of rounds started, number of collapse_one calls). *)
+  Fixpoint loop2 (limit : nat) (pending : list item) : outcome * nat * nat :=
+    match limit with
+    | 0 => (Raise, 0, 0)
+    | S k =>
+        match pending with
+        | [] => (Done, 0, 0)
+        | _ :: _ =>
+            let q := perm pending in
+            if existsb is_loop q then (Raise, 1, before q)
+            else let '(o, r, w) := loop2 k (flat_map expand q) in (o, S r, length q + w)
+        end
+    end.
+
+  (** The instances placed in the map itself have no enclosing instance. *)
+  Definition start (roots : list file) : list item := map (fun f => (f, [])) roots.
+End Graph2.
